@@ -22,6 +22,7 @@ type OpPlan struct {
 	Key      opKey
 	Twice    bool // issue the call twice back to back (O2)
 	Scribble bool // fault: the owner overwrites the returned values afterwards
+	Fresh    bool // the caller passes freshly allocated copies of path and text
 	Shared   int  // >=0: operate on Plan.Shared[Shared] instead of parsing (read-only sharing)
 }
 
@@ -497,8 +498,9 @@ type runResult struct {
 	Ops        int
 	Infeasible int
 	Foreign    int64
-	Outcomes   []uint64 // per (task, op) outcome hash, in task-major order
-	Texts      []string // with wantText
+	Outcomes   []uint64    // per (task, op) outcome hash, in task-major order
+	Retained   []*retained // values still held (not overwritten) by the tasks at the end of the run
+	Texts      []string    // with wantText
 }
 
 type execOpts struct {
@@ -578,7 +580,7 @@ func (s *sim) doOp(t *task, i int, op *OpPlan, outcomes [][]uint64, texts [][]st
 		s.faults["shared-read"]++
 	}
 	t.inOp = true
-	res := runOp(op.Key, sh, s.wantText)
+	res := runOpX(op.Key, sh, s.wantText, op.Fresh)
 	t.inOp = false
 	outcomes[t.id][i] = res.hash
 	s.logHash = (s.logHash ^ res.hash) * 0x100000001b3
@@ -589,7 +591,7 @@ func (s *sim) doOp(t *task, i int, op *OpPlan, outcomes [][]uint64, texts [][]st
 	if op.Twice {
 		s.faults["repeat"]++
 		t.inOp = true
-		res2 := runOp(op.Key, sh, false)
+		res2 := runOpX(op.Key, sh, false, op.Fresh)
 		t.inOp = false
 		s.checkOutcome(t, i, op.Key, res2.hash, "O2")
 		if sh == nil {
@@ -798,6 +800,11 @@ wait:
 			s.checkRetained(r, "at the end of the run")
 		}
 		s.checkDisjoint()
+	}
+	if s.aborted == "" && len(s.fails) == 0 {
+		for _, t := range s.tasks {
+			res.Retained = append(res.Retained, t.retained...)
+		}
 	}
 	res.LogHash, res.SigHash = mix64(s.logHash), mix64(s.sigHash)
 	res.Steps, res.Switches, res.Overlapped = s.step, s.switches, s.overlapped
